@@ -1,24 +1,33 @@
 //@@ include prelude/head.rs
 use std::time::{Duration, Instant};
 use std::sync::Arc;
-use std::collections::VecDeque;
+use std::collections::{VecDeque, HashMap};
+use std::alloc::Allocator;
 //@@ include prelude/time.rs
 //@@ include prelude/deque_iter.rs
+//@@ include prelude/strnum.rs
+//@@ include prelude/cmp.rs
+//@@ include prelude/hash_keys.rs
+//@@ include prelude/c16_keys.rs
 verus! {
-broadcast use {group_time};
+broadcast use {group_time, group_byte_keys, vstd::std_specs::hash::group_hash_axioms};
 // C09, value level (lists): what the loader does with a LIST record. The reader is a MODEL that returns arbitrary items and notes them in a
 // ghost sequence; the storage engine is a MODEL that notes the calls it receives. The unit is the real match arm of
 // RdbReader::read_key_value_with_type.
 pub struct FerrousError { pub g: Ghost<int> }
 pub type Result<T> = std::result::Result<T, FerrousError>;
 pub enum Item { Str(Seq<u8>), Len(int) }
-pub enum Eff { RPush(int, Seq<u8>, Seq<Seq<u8>>), Expire(int, Seq<u8>, int) }
+pub enum Eff { RPush(int, Seq<u8>, Seq<Seq<u8>>), Expire(int, Seq<u8>, int), XAdd(int, Seq<u8>, StreamId) }
 pub struct RdbReader { pub reads: Ghost<Seq<Item>> }
 pub struct StoreLog { pub effs: Ghost<Seq<Eff>> }
 impl StoreLog {
     #[verifier::external_body]
     pub fn rpush(&mut self, db: usize, key: Vec<u8>, elements: Vec<Vec<u8>>) -> (r: Result<usize>)
         ensures final(self).effs@ == old(self).effs@.push(Eff::RPush(db as int, key@, elements@.map_values(|e: Vec<u8>| e@))),
+    { unimplemented!() }
+    #[verifier::external_body]
+    pub fn xadd_with_id(&mut self, db: usize, key: Vec<u8>, id: StreamId, fields: HashMap<Vec<u8>, Vec<u8>>) -> (r: Result<()>)
+        ensures final(self).effs@ == old(self).effs@.push(Eff::XAdd(db as int, key@, id)),
     { unimplemented!() }
     #[verifier::external_body]
     pub fn expire(&mut self, db: usize, key: &[u8], ttl: Duration) -> (r: Result<bool>)
@@ -81,6 +90,37 @@ impl RdbReader {
                 && final(self).reads@.take(old(self).reads@.len() as int) == old(self).reads@
                 && final(storage).effs@ == old(storage).effs@ + list_effs(db as int, key, elems)
                     + (match ttl { Some(t) => seq![Eff::Expire(db as int, key, dur_nanos(t))], None => Seq::<Eff>::empty() }),
+//@@ body
+//@@ end
+}
+
+/// `StreamId::from_string(..)` (RPCALL site): the id the text spells, if any — unconstrained here
+#[verifier::external_body]
+pub fn verif_sid_from_str(s: &str) -> Option<StreamId> { unimplemented!() }
+/// every effect from position `from` on concerns this key of this database
+pub open spec fn only_key(effs: Seq<Eff>, from: int, db: int, key: Seq<u8>) -> bool {
+    forall|i: int| from <= i < effs.len() ==> (match #[trigger] effs[i] { Eff::XAdd(d, k, _) => d == db && k == key, Eff::Expire(d, k, _) => d == db && k == key, Eff::RPush(d, k, _) => d == db && k == key })
+}
+impl RdbReader {
+//@@ unit load_stream_arm arm src/storage/rdb.rs RdbReader::read_key_value_with_type "op if op == RdbOpcode::Stream as u8"
+//@@   opt same-return-type
+//@@   tail Ok(())
+//@@   params drop "storage: &Arc<StorageEngine>" add "storage: &mut StoreLog"
+//@@   rewrite RPCALL "crate::storage::stream::StreamId::from_string" verif_sid_from_str
+//@@   rewrite RT "let mut fields = HashMap::new();" "let mut fields: HashMap<Vec<u8>, Vec<u8>> = HashMap::new();"
+//@@   rewrite RFORC 1
+//@@   loop 0
+//@@|     invariant entry_idx <= remaining_count,
+//@@|     decreases remaining_count - entry_idx,
+//@@   loop 1
+//@@|     invariant 0 <= ___n <= ___end, ___end == field_count, entry_idx + 2 * (field_count - ___n) <= remaining_count, entry_idx0 + 2 * ___n == entry_idx,
+//@@|     decreases ___end - ___n,
+//@@   at "for _ in 0..field_count"
+//@@|     let ghost entry_idx0 = entry_idx as int;
+    // C10 ("Loading a truncated or corrupted file ends with an error or a clean partial load, never a panic, a hang ..."): no postcondition —
+    // the obligations of this unit are its SAFETY and TERMINATION conditions: for every answer of the reader (every count, every field-count
+    // text: they come from the file) no arithmetic in the arm overflows and both loops terminate
+    fn load_stream_arm(&mut self, storage: &mut StoreLog, db: usize, ttl: Option<Duration>) -> (r: Result<()>)
 //@@ body
 //@@ end
 }
